@@ -437,6 +437,32 @@ main(void)
 				printf("skip");
 			else
 				bigstream(nonce, n, len, hc_ntok == 5);
+		} else if (hc_is("decoy", 2)) {
+			/*
+			 * decoy <nonce> <hex>: while the stream object S of this life (if any) stays alive, other stream
+			 * objects come and go: B is created and freed, then C is created, encrypts <hex> from position 0
+			 * under <nonce> (= what crypto_aesctr_buf computes) and is freed.  S must not notice.
+			 */
+			if (curkey == NULL)
+				printf("skip");
+			else {
+				struct crypto_aesctr * B, * C;
+
+				nonce = strtoull(hc_tok[1], NULL, 10);
+				in = hc_unhex(hc_tok[2], &len);
+				out = malloc(len ? len : 1);
+				if ((B = crypto_aesctr_init(curkey, nonce ^ 1)) == NULL)
+					abort();
+				crypto_aesctr_stream(B, in, out, len > 5 ? 5 : len);
+				crypto_aesctr_free(B);
+				if ((C = crypto_aesctr_init(curkey, nonce)) == NULL)
+					abort();
+				crypto_aesctr_stream(C, in, out, len);
+				crypto_aesctr_free(C);
+				hc_puthex(out, len);
+				free(in);
+				free(out);
+			}
 		} else if (hc_is("buf", 4) && (!strcmp(hc_tok[3], "after") || !strcmp(hc_tok[3], "before")) &&
 		    offset_of(hc_tok[4]) >= 0) {
 			/* buf <nonce> <hex> after|before <off>: touching buffers in one block of storage, as for `stream` */
